@@ -4,4 +4,11 @@ verus! {
 pub assume_specification<T>[ Option::<T>::or ](a: Option<T>, b: Option<T>) -> (r: Option<T>)
     ensures r == (if a is Some { a } else { b });
 
+// core's reflexive `impl<T> From<T> for T` is the identity (needed for the desugared `?`, rewrite R14)
+pub broadcast axiom fn axiom_from_reflexive_obeys<T>()
+    ensures #[trigger] <T as vstd::std_specs::convert::FromSpec<T>>::obeys_from_spec();
+pub broadcast axiom fn axiom_from_reflexive_value<T>(v: T)
+    ensures #[trigger] <T as vstd::std_specs::convert::FromSpec<T>>::from_spec(v) == v;
+pub broadcast group axiom_from_reflexive { axiom_from_reflexive_obeys, axiom_from_reflexive_value }
+
 } // verus!
